@@ -176,4 +176,17 @@ CHECKS = {
                 "bound only for 3-digit decimal mantissas; ordinates up to +-1e300 as the property states.",
         "technique": "TLA+ exact contracts (integer/rational arithmetic, bit relations); TLC trace validation of recorded calls",
     },
+    "C20": {
+        "text": "Empties.tla states the neutral answers of an all-empty geometry as functions of its abstract tree (structural "
+                "Dimension, canonical WKT, closed-form DE-9IM, zero measures, empty derived geometries, undefined distance, Union with "
+                "empty = self-union) and transparency as an action property over histories: the observation vector must not change "
+                "across InsertEmpty / RemoveEmpty steps. TLC enumerates every all-empty shape to depth 2 as a case (the real library is "
+                "then asked, by reflection, for every public method of Geometry and the concrete types and 24 free functions in both "
+                "argument positions: no panic, neutral answers), compares the zero Geometry with the empty GeometryCollection "
+                "observation by observation, and validates recorded histories of real InsertEmpty / RemoveEmpty steps with a 25-entry "
+                "observation vector.",
+        "note": TLCNOTE + "Index accessors (PointN etc.) and MustAs* are excluded (documented / ordinary Go panics); set-operation "
+                "results are compared as point sets through the library's Equals (itself covered by C02).",
+        "technique": "TLA+ neutral-answer table and transparency action property; TLC-enumerated emptiness shapes replayed by reflection + TLC trace validation of insert/remove histories",
+    },
 }
